@@ -65,4 +65,30 @@ PROPS = {
                 "set_listener outcomes {ok, provider error, other library errors, other exceptions}, malformed init requests; "
                 "non-trivial = distinct (kind, version, outcome line)",
     },
+    "C06": {
+        "lean": ["AriVerif.Props.C06"],
+        "gen": [],
+        "streams": [s_wire.stream_requests, s_wire.stream_meta],
+        "trusted": [KERNEL, HARNESS, "Spec/Ari.lean (the conforming ARI request encoder) is hand-written from the protocol, "
+                    "cross-checked with request literals of the repository's tests (examples in Props/C06.lean)",
+                    "the request layouts (Requests.schemas) and the adapter wiring (Meta.metaExec) are hand-written tables tied by the "
+                    "differential with pairwise-distinct values in every slot",
+                    "modelled, not verified: str.split / rstrip / int() / unquote_plus of CPython on ASCII input"],
+        "assumptions": ["inbound bytes are ASCII (the reader decodes with 'ascii')", "integers below CPython's 4300-digit limit"],
+        "rule": "per method: structured requests with distinct values per slot (strings of the C05 domain incl. None/empty, ints incl. 0, "
+                "negatives and > 2^64, every mode/platform code incl. null, maps/lists/table lists of 0..6 entries, duplicate map keys), "
+                "encoded by a java.net.URLEncoder-like encoder and by random standard variants, both terminators; malformed variants; "
+                "the Metadata closures with scripted adapters; non-trivial = distinct (method, token list)",
+    },
+    "C09": {
+        "lean": ["AriVerif.Props.C09"],
+        "gen": [],
+        "streams": [s_wire.stream_requests, s_wire.stream_meta],
+        "trusted": [KERNEL, HARNESS, "request layouts hand-written (Requests.schemas), tied by the malformed-stream differential",
+                    "modelled, not verified: the remoting_exception_on_parse decorator (every exception inside read_* becomes the "
+                    "protocol error naming the method) — compared on every malformed input"],
+        "assumptions": ["DESIGN I-2 (mode = first character), I-3 (a dangling S|k at the end of a map is tolerated by the code)"],
+        "rule": "per method: truncation at every position, every type marker replaced, every typed slot corrupted, token deletion / "
+                "duplication, appended tokens, random token lists; non-trivial = distinct (method, token list)",
+    },
 }
